@@ -15,39 +15,48 @@ CHECKS = {
          "Every (table, request) of the bounded pools is enumerated by TLC and replayed on real containers under both routers and "
          "both entry points; every observation of the real code - also from seeded random tables with near-miss requests - is judged "
          "by the property-level specification: a route function may only run when Admits holds (method, path May-match, Consumes, "
-         "Accept, conditions) and the selected route seen by the handler is its own. Soundness is a universally quantified negative: "
+         "Accept, conditions) and the selected route seen by the handler is its own. Build dimensions that must not matter are varied per "
+         "table (native / net/http-middleware container filter, the other router installed first, templates compiled once with the "
+         "trailing-slash switch off, package default request content type set). Soundness is a universally quantified negative: "
          "exhaustive small scope + large randomised trace validation is the level that reaches it.", "6 C01", ROUTING_NOTE),
  "C02": ("same pipeline, clauses C02.total / once / status / allowset (staged 404/405/415/406 decision of Routing.tla)",
          "The staged error decision is a complete definition in Layer A; TLC checks totality/determinacy of the specification and "
          "enumerates header pools (method x Consumes x Produces x condition x body) and two-service root pools; all cases and "
          "random near-miss requests are replayed on the real code, with trace logging on and off, and judged by TLC.", "6 C02", ROUTING_NOTE),
- "C03": ("same pipeline with every table built in 4 registration orders per router; clauses C03.root / route / order",
+ "C03": ("same pipeline with every table built in 4 registration orders per router, the root pools also through ServeHTTP (a ServeMux redirect "
+         "that Registry's ServeMux model of the documented pattern scheme does not predict is a mismatch); clauses C03.root / route / order",
          "Dominance (literal over variable, longer root over prefix) is a relation of Layer A whose strictness and permutation "
          "invariance TLC checks; real containers are built in several registration orders and their outcomes compared and judged.",
          "6 C03", ROUTING_NOTE),
  "C04": ("same pipeline; clauses C04.exact / names / roundtrip on Request.PathParameters() read inside the invoked handler",
          "Bind is Layer A's definition (segment minus prefix/suffix/verb; tail = remaining segments); the round trip is evaluated by "
          "TLC on the logged parameters of every invoked route of the exhaustive pools and of random tables.", "6 C04", ROUTING_NOTE),
- "C14": ("same pipeline with every request sent as p and p/ to one container; clause C14.pair; trailing-slash invariance is also a theorem of Layer A checked by TLC",
+ "C14": ("same pipeline with every request sent as p and p/ to one container (Dispatch; root pools also through ServeHTTP after a decoy WebService sharing "
+         "the ServeMux prefix was added and removed), the OPTIONS filter asked about p and p/ (C14.options); clause C14.pair; trailing-slash invariance is a theorem "
+         "of Layer A and of Layer B's computeAllowedMethods (OptionsSlash; the regular-expression walk is a counter-model TLC refutes)",
          "TLC proves the invariance on the specification for every enumerated table/request and judges every real pair.", "6 C14", ROUTING_NOTE),
- "C17": ("TLC model checking of OptionsTruthful (Layer B of computeAllowedMethods = methods Layer A calls routable, on every table and URL of the 'agree' pools; the legacy "
-         "walk over all WebServices refuted) + TLC trace validation of per-method probe sets against the Allow headers of 405 responses (with and without an entity) and of the "
-         "OPTIONS filter, before and after a route is added (RoutingTrace, clause C17.*), cases from MC_Routing 'agree' pools and random common-fragment tables",
+ "C17": ("TLC model checking of OptionsInv (Layer B of computeAllowedMethods - the router asked per method - lists the methods Layer A calls routable: equal on the "
+         "common fragment, between the Must and May readings on every template form of the 'path' pools; the legacy walk over all WebServices and the "
+         "regular-expression walk are counter-models TLC refutes) + TLC trace validation of per-method probe sets against the Allow headers of 405 responses (with and without an entity) and of the "
+         "OPTIONS filter, before and after a route is added (RoutingTrace, clause C17.*, headers as frozen at the first WriteHeader), cases from MC_Routing 'agree' pools, "
+         "random common-fragment tables (some with OPTIONS routes of their own) and random tables of every template form",
          "The property relates three computations of the real code; the harness probes every method for every URL on a plain and on "
          "a filtered twin container and the trace specification evaluates the set equalities and the twin equality.", "6 C17", ROUTING_NOTE),
- "C18": ("same pipeline on twin containers differing only in Container.Router; clause C18.agree (N-version) plus each observation judged by Layer A",
+ "C18": ("same pipeline on twin containers differing only in Container.Router, also after a route was added late or swapped for a placeholder; clause C18.agree (N-version) plus each observation judged by Layer A",
          "Common-fragment tables are enumerated exhaustively by TLC (incl. cross-instantiated requests both templates match) and "
          "generated randomly; every request runs on both real routers.", "6 C18", ROUTING_NOTE),
  "C05": ("TLC exhaustive model checking of MC_Negotiation (Layer A theorems: membership, no 406 after admission, whitespace/parameter invariance; "
          "Layer B EntityWriter inside Layer A; legacy parser counter-model refuted) + replay of every state in 7 header styles on the real "
-         "Response.WriteEntity + TLC trace validation (NegoTrace) of random Accept-grammar headers",
+         "Response.WriteEntity (pretty and streaming writer branch, Content-Type as frozen at WriteHeader, every case asked for once before its writers are registered) "
+         "+ TLC trace validation (NegoTrace) of random Accept-grammar headers",
          "The allowed representation set BestSet is defined in TLA+ for every reading the property leaves open; every real write (12 "
          "repetitions per request to expose map-order nondeterminism) is judged against it.", "6 C05",
          "Trusted: TLC, Json module, net/http; SP is the only optional whitespace generated; Produces entries have registered writers."),
  "C08": ("TLC exhaustive model checking of MC_Cors (every configuration x stored-methods state; every pool request answered by the "
          "implementation-shaped filter and judged by all C08 clauses; both readings of 'allowed origin' proved equal on the pool) + replay of "
          "every configuration with the whole pool on one real filter instance next to a filter-less twin container + TLC trace validation "
-         "(CorsTrace, clauses C08.*) incl. random origins derived from allowed entries by edit operations",
+         "(CorsTrace, clauses C08.*) incl. random origins derived from allowed entries by edit operations, a predicate that changes its verdict in mid-sequence, "
+         "and 8 goroutines against WebServices with CORS filters of their own",
          "OriginAllowed is written exactly as the statement words it; no-grant responses must equal the filter-less twin's projection.",
          "6 C08", "Trusted: TLC, Json module, net/http; predicate catalogue is case-insensitive; handlers add no Access-Control-* header."),
  "C09": ("same pipeline, clauses C09.alone / refuse / grant / actual; histories of preflights to different URLs on one filter instance; "
@@ -58,32 +67,33 @@ CHECKS = {
  "C06": ("TLC exhaustive model checking of MC_Dispatch (Container.dispatch as a state machine, one action per code step; the Layer A monitor "
          "Dispatch!Step accepts every behaviour; counter-model SharedChain refuted) + replay of every configuration on the real Container "
          "(Dispatch, ServeHTTP, HandleWithFilter; two requests in sequence) + TLC trace validation (DispatchTrace, clauses C06.*) of event logs "
-         "written by generated filters/handlers, incl. random chains of up to 15 filters and 8-goroutine batches (per-request projection)",
+         "written by generated filters/handlers (native, net/http middleware, real CORS filters), incl. random chains of up to 15 filters and 8-goroutine batches (per-request projection)",
          "Order, exactly-once, short-circuit, pair/attribute propagation and the error-path rule are enabling conditions of the monitor's "
          "actions; every per-request event log of the real code must be a behaviour of the monitor.", "6 C06", "Trusted: TLC, Json module, net/http/httptest, compress/*; filters call ProcessFilter at most once; payload fidelity enters the specification as logged booleans."),
  "C07": ("same pipeline; the monitor's acquire/release ledger (C07.once) and the pure coding-decision clauses C07.label / mention / enabled / pre / "
-         "none / payload evaluated by TLC on every real response (body decoded to EOF by the harness, payloads 0 B - 1 MiB, all entry points, "
-         "providers, outcome kinds incl. recovered panics)",
+         "none / payload evaluated by TLC on every real response (body decoded to EOF by the harness, payloads 0 B - 1 MiB written with Write or streamed with io.Copy "
+         "onto an io.ReaderFrom writer, all entry points incl. a real server, providers, outcome kinds incl. recovered panics, run-time setting changes on route copies)",
          "When and how often coding / closing / releasing may happen is decided by the specification; DEFLATE itself is outside it.",
          "6 C07", "Trusted: TLC, Json module, net/http/httptest, compress/*; filters call ProcessFilter at most once; payload fidelity enters the specification as logged booleans."),
  "C10": ("same pipeline; every crash point of MC_Dispatch (each filter before/after passing control, the target) x recovery x encoding x entry "
          "point replayed 1:1; clauses C10.* of the monitor (recover exactly once, nothing after the panic, no leak, escape iff recovery off) plus "
          "status / usable (probe requests equal to a never-panicked twin, Container.Add completes); counter-models DefersSwapped and "
          "NoCloseOnPanic refuted by TLC",
-         "Crash points are enumerated by TLC, not sampled; the state left behind is observed by follow-up requests and the compressor ledger.",
+         "Crash points are enumerated by TLC, not sampled (panic values: string, error, int, http.ErrAbortHandler); the state left behind is observed by follow-up requests and the compressor ledger.",
          "6 C10", "Trusted: TLC, Json module, net/http/httptest, compress/*; filters call ProcessFilter at most once; payload fidelity enters the specification as logged booleans."),
  "C19": ("TLC exhaustive model checking of MC_Pure (every interleaving of three requests in flight; invariants Pure / NoResidue; four "
          "counter-models - shared parameter map, attribute map, filter chain, CORS methods - each refuted) + TLC trace validation (PureTrace) "
          "of real-container histories: each request key is bound on a fresh container and every later observation (sequential position, "
          "16-goroutine batch, tracing on; part under the race detector) must equal it and must have seen its own request",
          "Purity is a statement over histories and schedules: the model shows which per-request objects it depends on, the trace "
-         "validation compares every real observation with the fresh-container one.", "6 C19",
+         "validation compares every real observation with the fresh-container one; handlers add to their own request's parameter map.", "6 C19",
          "Trusted: TLC, Json module, net/http, the race detector (dynamic: evidence for the explored schedules only)."),
  "C11": ("TLC exhaustive model checking of MC_Registry (every registration history up to MaxOps over Add / Remove / Handle; Layer B - "
          "webServices, ServeMux patterns, root flag as container.go keeps them, with a model of net/http.ServeMux lookup - must answer every "
          "probe like a fresh container with Layer A's content; Add never panics; three legacy behaviours refuted as counter-models) + replay of "
          "every complete history on real containers + TLC trace validation (RegistryTrace): after every operation a fresh container is built "
-         "from the content the specification computes and 23 probes go through ServeHTTP and Dispatch of both",
+         "from the content the specification computes and 30 probes go through ServeHTTP and Dispatch of both (operations incl. two routes on one method+path removed together, "
+         "route swaps, registrations net/http refuses)",
          "History independence is a statement over all operation sequences: exhaustive up to MaxOps on the model, every such history and "
          "random ones of up to 30 operations on the real code with a differential oracle.", "6 C11",
          "Trusted: TLC, Json module, net/http (ServeMux). Duplicate roots / duplicate Handle patterns are not generated (documented exits/panics)."),
@@ -94,13 +104,14 @@ CHECKS = {
          "registration state that existed during the request (window rule, incl. isolation)",
          "Data-race freedom is decided on the lock-discipline model and observed on the real code by the race detector on exactly the "
          "pairs the model shows to be critical; linearisability of responses is checked against fresh containers for every state of the window; "
-         "rounds with two mutators on disjoint services check that nothing is lost (C12.final) and that a panicking condition leaves no lock behind.",
+         "rounds with two mutators on disjoint services check that nothing is lost (C12.final) and that a panicking condition leaves no lock behind; mutated roots "
+         "include ones sharing their fixed ServeMux prefix and a service on '/'.",
          "6 C12", "Trusted: TLC, the Go race detector (dynamic), one mutator goroutine; a 30 s watchdog defines deadlock."),
  "C13": ("TLC exhaustive model checking of MC_Pool (N processes x Rounds of Acquire / Close / nil / second Close on the bounded channel cache "
          "for several (N, K) incl. K = 0, and on the sync.Pool bag; invariants Exclusive / NeverBlocks / CacheBounded, liveness Completion under "
          "weak fairness; legacy check-then-send release and a releasing second Close refuted) + TLC's legacy counterexample reproduced on the real "
          "cache by spin-barrier rounds + TLC trace validation (PoolTrace) of the acquire/release ledger of an instrumenting provider around the "
-         "real providers under 8-64 goroutines of encoded responses, panicking handlers and gzip request bodies, bodies decoded and compared, "
+         "real providers under 8-64 goroutines of encoded responses, panicking handlers, hijacked connections and gzip request bodies, bodies decoded and compared, "
          "one part under the race detector, double Close per provider and coding",
          "Exclusive ownership and non-blocking release are schedule properties: all interleavings on the model, the critical interleaving "
          "forced on the real code by the barrier, random schedules judged by the ledger monitor.", "6 C13",
@@ -108,12 +119,12 @@ CHECKS = {
  "C15": ("TLC exhaustive model checking of MC_Response (every public writing call decomposed into the WriteHeader / Write calls it makes on the "
          "underlying writer; every call sequence up to MaxCalls x every failure budget; invariants StatusLaw / LengthLaw / ErrorLaw; three "
          "counter-models refuted) + replay of every sequence on the real Response over an instrumenting writer with every failure position, "
-         "over gzip / deflate writers and through real Dispatch (trailing filter) + TLC trace validation (RespTrace) of the recorded returns",
+         "over gzip / deflate writers and through real Dispatch (trailing filter; also when a custom RouteSelector fails with errors of its own) + TLC trace validation (RespTrace) of the recorded returns",
          "The laws quantify over call sequences and fault positions: both are enumerated, not sampled, within the bounds; random sequences "
          "extend payload sizes and call kinds.", "6 C15", "Trusted: TLC, Json module, compress/*; the failing writer accepts a prefix and returns an error."),
  "C16": ("TLC exhaustive model checking of MC_Entity (every sequence of request kinds against the state pooled gzip readers are left in, "
          "capacities 0/1/2 and the sync.Pool bag; invariants HistoryIndependent / ReleasedOnce; NoReset and LeakOnError refuted) + replay of the "
-         "explored sequences on the real Request.ReadEntity with concrete seeded values written by the real entity writers + TLC trace "
+         "explored sequences on the real Request.ReadEntity with concrete seeded values written by the real entity writers (a third preceded by a write to a client that went away) + TLC trace "
          "validation (EntityTrace): the outcome each body must have is computed by the specification from its kind alone",
          "The HISTORY quantifier (what earlier requests left behind, error paths, providers) is decided by the model and replayed; the VALUE "
          "quantifier (every value of the codecs' common domain) is encode/decode fidelity, outside what a TLA+ specification decides: it is "
